@@ -447,3 +447,188 @@ Section DynModel.
     exists d, ds = [d] /\ dwfd G tokedge d (NT a) /\ gtiles tokedge ign i j (yield span d).
   Proof. intros H. exact (idyn_model_sound _ _ H). Qed.
 End DynModel.
+
+(* ---- completeness, partial: the families of predict_and_complete.  Every completion between chart items of the
+   position graph (and every empty completion) has its family in the log, for every column the run builds. ---- *)
+Section DynComplete.
+  Variable G : grammar.
+  Variable predictions : nat -> list rule.
+  Variable start : nat.
+  Variable n : nat.
+  Variable rmatch : nat -> nat -> option nat.
+  Variable rtrunc : nat -> nat -> nat -> option nat.
+  Variable complete_lex : bool.
+  Variable ignore : list nat.
+  Hypothesis pred_sound : forall a r, In r (predictions a) -> In r G /\ lc_reach G a (lhs r).
+  Hypothesis pred_direct : forall a r, In r G -> lhs r = a -> In r (predictions a).
+  Hypothesis H_fwd : fwd rmatch rtrunc.
+
+  Notation gchart := (gchart G start rmatch rtrunc complete_lex ignore).
+  Notation idloop := (idloop G predictions start rmatch rtrunc complete_lex ignore).
+
+  Definition dcol_ok (C : nat -> list item) (fams : list dfam) (k : nat) : Prop :=
+    (forall x, In x (C k) -> expect x = None -> dot x = 0 ->
+               In (NSym nat (lhs (irule x)) (orig x) k, (irule x, None, None)) fams) /\
+    (forall x y, In x (C k) -> expect x = None -> orig x <= k -> In y (C (orig x)) ->
+               expect y = Some (NT (lhs (irule x))) -> In (comp_fam nat k (orig x) (lhs (irule x)) y) fams).
+
+  Lemma fold_dplace_nonterm (f : ientry -> item) es : forall acc,
+    (forall y, In y (fst acc) -> is_term_item y = false) ->
+    forall y, In y (fst (fold_left (fun a e => dplace a (f e)) es acc)) -> is_term_item y = false.
+  Proof.
+    induction es as [|e es IH]; intros acc Ha y H; simpl in H; auto.
+    eapply IH; [|exact H]. intros z Hz. unfold dplace in Hz. destruct (expect (f e)) as [[t|a]|] eqn:E; cbn [fst snd] in Hz; auto;
+      apply set_add_In in Hz; destruct Hz as [Hz| ->]; auto; unfold is_term_item; rewrite E; reflexivity.
+  Qed.
+
+  Lemma fold_entry_incl i es : forall acc, incl acc (fold_left (fun a e => a ++ entry_fams i a e) es acc).
+  Proof.
+    induction es as [|e es IH]; intros acc; simpl. apply incl_refl.
+    intros z Hz. apply IH. apply in_or_app; auto.
+  Qed.
+
+  Lemma idloop_complete : forall rem i cols scans keys col scanq dm acc,
+    length cols = i ->
+    (forall x, In x col -> is_term_item x = false) -> (forall x, In x scanq -> is_term_item x = true) ->
+    let r := idloop rem i cols scans keys col scanq dm acc in
+    incl acc (snd r) /\
+    (exists rc, d_cols (fst r) = cols ++ rc) /\
+    (forall k, i <= k < length (d_cols (fst r)) -> dcol_ok (colf (d_cols (fst r))) (snd r) k).
+  Proof.
+    induction rem as [|rem IH]; intros i cols scans keys col scanq dm acc Hlc Dc Dq;
+      cbn [ExplicitDynBuild.idloop];
+      destruct (ipredict_and_complete predictions nat (pc_fuel G i) i cols col scanq acc) as [[st acc1]|] eqn:E;
+      cbn zeta.
+    - destruct (icolumn_complete G predictions nat pred_direct i cols _ _ _ _ _ Dc Dq E) as (Hinc & F1 & F2 & F3).
+      cbn [fst snd d_cols]. split; auto. split; [exists [pc_col st]; auto|].
+      intros k Hk. rewrite app_length in Hk. simpl in Hk. assert (k = i) by lia. subst k.
+      pose proof (colf_snoc_eq' cols (pc_col st) i Hlc) as Ec.
+      split.
+      + rewrite Ec. auto.
+      + rewrite Ec. intros x y Hx He Ho Hy Hey. destruct (Nat.eq_dec (orig x) i) as [Heq|Hne].
+        * rewrite Heq in *. rewrite Ec in Hy. apply F3; auto.
+        * rewrite colf_snoc_lt in Hy by lia. apply F2; auto.
+    - cbn [fst snd d_cols]. split; [apply incl_refl|]. split; [exists []; rewrite app_nil_r; auto|]. intros k Hk. lia.
+    - destruct (icolumn_complete G predictions nat pred_direct i cols _ _ _ _ _ Dc Dq E) as (Hinc & F1 & F2 & F3).
+      assert (Here : forall rc fams, incl acc1 fams -> dcol_ok (colf ((cols ++ [pc_col st]) ++ rc)) fams i).
+      { intros rc fams Hf.
+        assert (Ec : colf ((cols ++ [pc_col st]) ++ rc) i = pc_col st).
+        { unfold colf. rewrite app_nth1 by (rewrite app_length; simpl; lia). exact (colf_snoc_eq' cols (pc_col st) i Hlc). }
+        assert (Eold : forall m, m < i -> colf ((cols ++ [pc_col st]) ++ rc) m = nth m cols []).
+        { intros m Hm. unfold colf. rewrite <- app_assoc. rewrite app_nth1 by lia. reflexivity. }
+        split.
+        - rewrite Ec. intros; apply Hf; apply F1; auto.
+        - rewrite Ec. intros x y Hx He Ho Hy Hey. apply Hf. destruct (Nat.eq_dec (orig x) i) as [Heq|Hne].
+          + rewrite Heq in *. rewrite Ec in Hy. apply F3; auto.
+          + rewrite Eold in Hy by lia. apply F2; auto. }
+      unfold idscan. cbn zeta. cbn [fst snd].
+      set (dm2 := fold_left (iscan_ignore start rmatch i (pc_scan st) (pc_col st)) ignore
+                            (fold_left (iscan_item rmatch rtrunc complete_lex i) (pc_scan st) dm)).
+      set (es := idm_get (S i) dm2).
+      set (ns := fold_left (fun a e => dplace a (realise (erase_entry e))) es ([], [])).
+      set (acc2 := fold_left (fun a e => a ++ entry_fams i a e) es acc1).
+      assert (Hinc2 : incl acc1 acc2) by apply fold_entry_incl.
+      assert (Dc' : forall x, In x (fst ns) -> is_term_item x = false).
+      { apply (fold_dplace_nonterm (fun e => realise (erase_entry e)) es ([], [])). intros z []. }
+      assert (Dq' : forall x, In x (snd ns) -> is_term_item x = true).
+      { apply (fold_dplace_term (fun e => realise (erase_entry e)) es ([], [])). intros z []. }
+      assert (Stop : forall o,
+                let r := (mkDRes o (cols ++ [pc_col st]) (scans ++ [pc_scan st]) keys, acc2) in
+                incl acc (snd r) /\ (exists rc, d_cols (fst r) = cols ++ rc) /\
+                (forall k, i <= k < length (d_cols (fst r)) -> dcol_ok (colf (d_cols (fst r))) (snd r) k)).
+      { intros o. cbn [fst snd d_cols]. split; [intros z Hz; apply Hinc2; apply Hinc; auto|].
+        split; [exists [pc_col st]; auto|].
+        intros k Hk. rewrite app_length in Hk. simpl in Hk. assert (k = i) by lia. subst k.
+        specialize (Here [] acc2 Hinc2). rewrite app_nil_r in Here. exact Here. }
+      assert (Go : let r := idloop rem (S i) (cols ++ [pc_col st]) (scans ++ [pc_scan st])
+                                   (keys ++ [map fst (idm_remove (S i) dm2)]) (fst ns) (snd ns) (idm_remove (S i) dm2) acc2 in
+                incl acc (snd r) /\ (exists rc, d_cols (fst r) = cols ++ rc) /\
+                (forall k, i <= k < length (d_cols (fst r)) -> dcol_ok (colf (d_cols (fst r))) (snd r) k)).
+      { destruct (IH (S i) (cols ++ [pc_col st]) (scans ++ [pc_scan st]) (keys ++ [map fst (idm_remove (S i) dm2)])
+                     (fst ns) (snd ns) (idm_remove (S i) dm2) acc2) as (R1 & (rc & R2) & R4); auto.
+        - rewrite app_length. simpl. lia.
+        - cbn zeta. split; [intros z Hz; apply R1; apply Hinc2; apply Hinc; auto|].
+          split; [exists ([pc_col st] ++ rc); rewrite R2, <- app_assoc; auto|].
+          intros k Hk. destruct (Nat.eq_dec k i) as [-> |Hne]; [|apply R4; lia].
+          rewrite R2. apply Here. intros z Hz. apply R1. apply Hinc2. auto. }
+      destruct (fst ns) as [|z nc']; [destruct (idm_remove (S i) dm2) as [|p dm'']; [destruct (snd ns) as [|z nq']|]|];
+        try apply Stop; apply Go.
+    - cbn [fst snd d_cols]. split; [apply incl_refl|]. split; [exists []; rewrite app_nil_r; auto|]. intros k Hk. lia.
+  Qed.
+
+  Notation ires := (idparse G predictions start n rmatch rtrunc complete_lex ignore).
+
+  Lemma ires_gclosed : exists N, length (d_cols (fst ires)) = N /\
+    gclosed G start rmatch rtrunc complete_lex ignore (colf (d_cols (fst ires))) (colf (d_scans (fst ires))) N.
+  Proof.
+    rewrite dyn_erasure.
+    destruct (dparse_ok G predictions start n rmatch rtrunc complete_lex ignore pred_sound pred_direct H_fwd)
+      as (N & L1 & _ & Cl & _). exists N; auto.
+  Qed.
+
+  Lemma ires_dcol_ok k : k < length (d_cols (fst ires)) -> dcol_ok (colf (d_cols (fst ires))) (snd ires) k.
+  Proof.
+    intros Hk. unfold idparse in *. cbn zeta in *. destruct (initial predictions start) as [c0 q0] eqn:E. cbn [fst snd] in *.
+    unfold initial in E.
+    destruct (places_spec init_step (fun r => Some (mkItem r 0 0)) init_step_eq _ _ _ _ _ E) as (_ & _ & _ & A4 & A5 & _).
+    destruct (idloop_complete n 0 [] [] [] c0 q0 [] [] eq_refl) as (_ & _ & H).
+    - intros z Hz. destruct (A4 z Hz) as [[]|(? & _)]. auto.
+    - intros z Hz. destruct (A5 z Hz) as [[]|(? & _)]. auto.
+    - apply H. lia.
+  Qed.
+
+  (* every completion between items of the chart over the position graph has its family in the log *)
+  Theorem dyn_completion_families i k y x a :
+    gchart i y -> expect y = Some (NT a) -> gchart k x -> expect x = None -> orig x = i -> lhs (irule x) = a ->
+    k < length (d_cols (fst ires)) -> In (comp_fam nat k i a y) (snd ires).
+  Proof.
+    intros Hy Hey Hx Hex Ho Hl Hk. destruct ires_gclosed as (N & HN & Cl).
+    assert (Hik : i <= k) by (apply gchart_wf' in Hx; auto; lia).
+    assert (Hxc : In x (colf (d_cols (fst ires)) k)).
+    { eapply ginT_C; eauto; [lia| |unfold is_term_item; rewrite Hex; reflexivity].
+      eapply gclosed_complete; eauto. lia. }
+    assert (Hyc : In y (colf (d_cols (fst ires)) i)).
+    { eapply ginT_C; eauto; [lia| |unfold is_term_item; rewrite Hey; reflexivity].
+      eapply gclosed_complete; eauto. lia. }
+    destruct (ires_dcol_ok k Hk) as (_ & F2). specialize (F2 x y Hxc Hex). rewrite Ho, Hl in F2. apply F2; auto.
+  Qed.
+
+  Theorem dyn_empty_families k x :
+    gchart k x -> expect x = None -> dot x = 0 -> k < length (d_cols (fst ires)) ->
+    In (NSym nat (lhs (irule x)) (orig x) k, (irule x, None, None)) (snd ires).
+  Proof.
+    intros Hx Hex Hd Hk. destruct ires_gclosed as (N & HN & Cl).
+    assert (Hxc : In x (colf (d_cols (fst ires)) k)).
+    { eapply ginT_C; eauto; [lia| |unfold is_term_item; rewrite Hex; reflexivity].
+      eapply gclosed_complete; eauto. lia. }
+    destruct (ires_dcol_ok k Hk) as (F1 & _). apply F1; auto.
+  Qed.
+End DynComplete.
+
+Section DynModelComplete.
+  Variable G : grammar.
+  Variable start n : nat.
+  Variable rmatch : nat -> nat -> option nat.
+  Variable rtrunc : nat -> nat -> nat -> option nat.
+  Variable complete_lex : bool.
+  Variable ignore : list nat.
+  Hypothesis H_fwd : fwd rmatch rtrunc.
+
+  Let ps : forall a r, In r (pred_lookup G (pred_table G) a) -> In r G /\ lc_reach G a (lhs r).
+  Proof. intros a r. rewrite pred_lookup_eq. apply predictions_spec. Qed.
+  Let pd : forall a r, In r G -> lhs r = a -> In r (pred_lookup G (pred_table G) a).
+  Proof. intros a r. rewrite pred_lookup_eq. apply predictions_direct. Qed.
+
+  Notation gchart := (gchart G start rmatch rtrunc complete_lex ignore).
+  Notation ires := (idyn_parse G start n rmatch rtrunc complete_lex ignore).
+
+  Theorem idyn_completion_families i k y x a :
+    gchart i y -> expect y = Some (NT a) -> gchart k x -> expect x = None -> orig x = i -> lhs (irule x) = a ->
+    k < length (d_cols (fst ires)) -> In (comp_fam nat k i a y) (snd ires).
+  Proof. apply (dyn_completion_families G (pred_lookup G (pred_table G)) start n rmatch rtrunc complete_lex ignore ps pd H_fwd). Qed.
+
+  Theorem idyn_empty_families k x :
+    gchart k x -> expect x = None -> dot x = 0 -> k < length (d_cols (fst ires)) ->
+    In (NSym nat (lhs (irule x)) (orig x) k, (irule x, None, None)) (snd ires).
+  Proof. apply (dyn_empty_families G (pred_lookup G (pred_table G)) start n rmatch rtrunc complete_lex ignore ps pd H_fwd). Qed.
+End DynModelComplete.
